@@ -8,6 +8,7 @@ import (
 	"math/big"
 	"testing"
 
+	"github.com/idena-network/idena-go/blockchain/types"
 	"github.com/idena-network/idena-go/common"
 	"github.com/idena-network/idena-go/core/state"
 	"github.com/idena-network/idena-go/verifutil"
@@ -401,6 +402,10 @@ func TestVerifC11(t *testing.T) {
 		}
 		replayDiffs(w, rep, w.Replicas[1], "straight-server")
 		replayDiffs(w, rep, reorged, "reorged-server")
+		for _, back := range []int{1, 7, 30, 60} {
+			fastSyncEndToEnd(w, rep, w.Replicas[1], "straight-server", back)
+			fastSyncEndToEnd(w, rep, reorged, "reorged-server", back)
+		}
 		flushCounters(rep, w, s)
 		w.Cleanup()
 	}
@@ -443,4 +448,56 @@ func TestVerifC11(t *testing.T) {
 		}
 		corruptArchive(rep, r, c, others, nf)
 	}
+}
+
+// ---------------------------------------------------------------------------------- (d) end-to-end fast sync
+
+// fastSyncEndToEnd: a node fast-synced from what `server` serves must hold exactly the state
+// of the canonical chain at the snapshot height and must keep accepting the canonical blocks.
+func fastSyncEndToEnd(w *World, rep *verifutil.Report, server *Replica, label string, back int) {
+	head := server.Head().Height()
+	snapH := head - uint64(back)
+	run, err := FastSyncHeaders(w, server, dbm.NewMemDB(), snapH)
+	rep.Eval(1)
+	rep.Count("fast_syncs", 1)
+	if err != nil {
+		rep.Violation("fast-sync-refuses-served-artifacts:"+label+":"+ErrClass(err), fmt.Sprintf("fast sync from %s to height %d (head %d) failed in the header/diff phase: %v", label, snapH, head, err), nil)
+		return
+	}
+	if err := run.Finish(); err != nil {
+		rep.Violation("fast-sync-refuses-served-artifacts:"+label+":"+ErrClass(err), fmt.Sprintf("fast sync from %s to height %d failed in the snapshot/switch phase: %v", label, snapH, err), nil)
+		return
+	}
+	S := run.S
+	if S.Head().Height() != snapH || S.Head().Root() != S.AppState.State.Root() || S.Head().IdentityRoot() != S.AppState.IdentityState.Root() {
+		rep.Violation("fast-synced-state-not-canonical:"+label, fmt.Sprintf("after fast sync to %d: head %d roots %x/%x state roots %x/%x", snapH, S.Head().Height(), S.Head().Root().Bytes()[:6], S.Head().IdentityRoot().Bytes()[:6],
+			S.AppState.State.Root().Bytes()[:6], S.AppState.IdentityState.Root().Bytes()[:6]), nil)
+		return
+	}
+	// compare with the canonical state at that height and continue with the canonical blocks
+	if ro, err := server.AppState.Readonly(snapH); err == nil {
+		if d := sameContents(treeContents(ro.State), treeContents(S.AppState.State)); d != "" {
+			rep.Violation("fast-synced-state-not-canonical:"+label, fmt.Sprintf("state contents after fast sync to %d differ from the canonical state: %s", snapH, d), nil)
+			return
+		}
+	}
+	// validator view of the fast-synced node = rebuilt view
+	var last *types.Block
+	for _, b := range w.Blocks {
+		if b.Height() <= snapH {
+			continue
+		}
+		if err := S.Chain.AddBlock(b, nil, S.Stats); err != nil {
+			rep.Violation("fast-synced-node-refuses-canonical-block:"+label+":"+ErrClass(err), fmt.Sprintf("node fast-synced to %d refuses canonical block %d (%s): %v", snapH, b.Height(), BlockKind(b), err), DescribeBlock(b))
+			return
+		}
+		last = b
+		CheckValidators(w, S, rep, b)
+	}
+	if last != nil {
+		if a, c := DigestState(S.AppState), DigestState(server.AppState); a != c && server.Head().Hash() == S.Head().Hash() {
+			rep.Violation("fast-synced-node-diverges:"+label, fmt.Sprintf("after the same blocks the fast-synced node has %s, the server %s", a, c), nil)
+		}
+	}
+	rep.Count("fast_syncs_completed:"+label, 1)
 }
